@@ -97,6 +97,8 @@ func (d *Decoder) decodeResp(depth int) (Resp, error) {
 		if err = d.r.UnreadByte(); err != nil {
 			return nil, errors.WithStack(err)
 		}
+		// the byte goes back to the reader and is counted again with its line
+		d.offset--
 		return d.decodeSingleLineBulkBytesArray()
 	}
 }
